@@ -3,6 +3,9 @@ package encoding
 import (
 	"bytes"
 	"encoding/json"
+	"math"
+	"strconv"
+	"strings"
 
 	"github.com/pelletier/go-toml/v2"
 	"github.com/zeromicro/go-zero/core/lang"
@@ -16,7 +19,7 @@ func TomlToJson(data []byte) ([]byte, error) {
 		return nil, err
 	}
 
-	return encodeToJSON(val)
+	return encodeToJSON(keepFloatLiterals(val))
 }
 
 // YamlToJson converts YAML data into its JSON representation.
@@ -38,9 +41,33 @@ func convertKeyToString(in map[any]any) map[string]any {
 	return res
 }
 
+// convertFloatToJsonNumber renders a float so that it stays a float literal in JSON,
+// 1.0 in YAML/TOML must not become the integer literal 1, otherwise the same document
+// is accepted for an integer field in YAML/TOML and rejected in JSON.
+func convertFloatToJsonNumber(f float64) any {
+	if math.IsInf(f, 0) || math.IsNaN(f) {
+		// not representable in JSON, let the encoder report it.
+		return f
+	}
+
+	s := strconv.FormatFloat(f, 'f', -1, 64)
+	if !strings.ContainsRune(s, '.') {
+		s += ".0"
+	}
+
+	return json.Number(s)
+}
+
 // convertNumberToJsonNumber converts numbers into json.Number type for compatibility.
-func convertNumberToJsonNumber(in any) json.Number {
-	return json.Number(lang.Repr(in))
+func convertNumberToJsonNumber(in any) any {
+	switch v := in.(type) {
+	case float32:
+		return convertFloatToJsonNumber(float64(v))
+	case float64:
+		return convertFloatToJsonNumber(v)
+	default:
+		return json.Number(lang.Repr(in))
+	}
 }
 
 // convertSlice processes slice items to ensure key compatibility.
@@ -60,6 +87,26 @@ func encodeToJSON(val any) ([]byte, error) {
 	}
 
 	return buf.Bytes(), nil
+}
+
+// keepFloatLiterals walks the value decoded from TOML and keeps floats as float literals.
+func keepFloatLiterals(v any) any {
+	switch vv := v.(type) {
+	case map[string]any:
+		for k, item := range vv {
+			vv[k] = keepFloatLiterals(item)
+		}
+		return vv
+	case []any:
+		for i, item := range vv {
+			vv[i] = keepFloatLiterals(item)
+		}
+		return vv
+	case float64:
+		return convertFloatToJsonNumber(vv)
+	default:
+		return v
+	}
 }
 
 // toStringKeyMap processes the data to ensure that all map keys are of type string.
